@@ -23,7 +23,7 @@ FAMILIES = {
         "coq_modules": ["Json", "Crc", "Hlc", "Kv", "Store", "Trace", "Corr"],
         "in_type": "scase", "obs_type": "list ostep",
         "corr": "kv_corr_ok", "chk": "kv_chk_ok", "model": "kv_model", "explain": "kv_explain", "chk_explain": "kv_chk_explain",
-        "n": {"quick": 160, "thorough": 4000},
+        "n": {"quick": 200, "thorough": 4000},
         "shard": 10, "procs": 8,
     },
 
@@ -166,7 +166,7 @@ PROPS = {
     },
     "C17": _kv("C17", "Full proof on the model: every successful mutation through any entry point raises the key's revision number by exactly one (1 on creation or re-creation after purge), failed calls leave it, and live events carry the stored number (C17_holds, all histories)."),
     "C03": {
-        "families": [{"family": "lin"}],
+        "families": [{"family": "lin"}, {"family": "kv", "chk": "kv_chk_C03", "corr": "kv_corr_C03", "model_chk": True}],
         "level_text": "Partial. Proved (Conc.v) for every number of threads, every list of updates per thread and every schedule: the read / compute / conditional-write loop that Update, WriteUpdateWithXattrs and the sub-document writes implement loses no update and applies none twice, and a successful write extends exactly the version its callback was shown (C03_no_lost_update, C03_write_on_shown_version, invariant over all reachable configurations). Single-transaction calls (Incr included) are one atomic step of the sequential model. The tie to the code is a Coq-checked linearization certificate: goroutines on 1-3 handles (in-memory and on-disk) run Incr, Get, GetWithXattrs, Remove, Update, WriteCas, WriteUpdateWithXattrs and SetWithMeta against shared keys; the live feed's events sorted by CAS are the claimed order; Lin.v replays that order through the sequential model Kv.kstep and requires every version, every response, every read (no torn body/xattrs), every failed call and the real-time order to be explained, and the callback's shown CAS to be the predecessor's.",
         "level_note": "Assumes inTransaction is atomic and isolated and that a SELECT outside the mutex sees a committed snapshot (SQLite WAL / the single in-memory connection): the certificate check is what watches this. Stress-based: schedules are those the Go scheduler produces in this run (testing strength for the code, proof strength for the loop model). Trusted: Coq kernel + vm_compute, Go harness.",
         "assumptions": ["each single-transaction call is atomic (bucket.mutex + SQLite transaction)", "reads outside the mutex see a committed snapshot", "the live feed delivers every posted event (checked: one event per acknowledged mutation)"],
